@@ -118,7 +118,8 @@ pub trait BlsSignCrypt:
 
         let mut v = vec![0u8; r.len()];
         reader.read(&mut v);
-        debug_assert!(!v.iter().all(|x| *x == 0));
+        // the buffer length is chosen by the sender: only a full-size keystream is expected to be non-zero
+        debug_assert!(v.len() < 32 || !v.iter().all(|x| *x == 0));
         // V = HℓX(R) ⊕ M
         byte_xor(r, &v)
     }
